@@ -16,6 +16,7 @@ import Pycoin.Props.C04
 import Pycoin.Proofs.SecRt
 import Pycoin.Proofs.SolveWrap
 import Pycoin.Proofs.SolveFuel
+import Pycoin.Proofs.SolveClassify
 /-!
 C05 — property theorems about the signer model (`Model/Sign.lean`).
 
@@ -49,8 +50,8 @@ C05 — property theorems about the signer model (`Model/Sign.lean`).
   induction on the key list, every 1 ≤ m ≤ n ≤ 20, the four wrappers); `C05_solve_constraints_*`: the solver loop on them =
   `solveBase`; `C05_solve_machinery_multisig/_p2pkh/_p2pk/_p2wpkh/_p2sh_p2wpkh`: `Solve.solve` (the machinery) returns what the
   result-level model returns; `C05_solve_machinery_*_end_to_end`: the end-to-end theorems started from the machinery;
-  `C05_solve_machinery_eq_result_model_p2pkh/_p2wpkh/_p2sh_p2wpkh` (full) and `…_partial` (any base script under the four wrappers, given
-  that `Sign.classify` recognises it): `Solve.solve` = `Sign.solve`;
+  `C05_solve_machinery_eq_result_model_multisig/_p2pk/_p2pkh/_p2wpkh/_p2sh_p2wpkh` (full) and `…_partial` (any base script under the
+  four wrappers, given that `Sign.classify` recognises it): `Solve.solve` = `Sign.solve`;
   `C05_solve_machinery_frame`, `C05_solve_machinery_missing_key`: unsolvable ⇒ untouched; `C05_solve_loop_fuel`,
   `C05_constraints_fetch_fuel`: the two fuels suffice.
 -/
@@ -2147,6 +2148,39 @@ theorem C05_solve_machinery_eq_result_model_p2pkh (a : SolveArgs) (ctx : VM.TxCt
   C05_solve_machinery_eq_result_model_partial .bare a ctx _ _ (baseOK_p2pkh a ph hph h hlen) script witness trivial
     ⟨(fun h => by cases h), (fun h => by simp [Wrap.witness] at h), (fun h => by cases h)⟩ (scriptHash_p2pkh h) (version_p2pkh h)
     ⟨0x76, [0xa9, 0x14] ++ h ++ [0x88, 0xac], by simp [p2pkhScript], by decide, by decide⟩ (classify_p2pkh h hlen)
+
+/-- **m-of-n multisig, the four wrappers, every `1 ≤ m ≤ n ≤ 20`, keys of 33 or 65 bytes: the machinery agrees with `Sign.solve`**
+(full: `classify_multisig` shows that the result-level model recognises the script). -/
+theorem C05_solve_machinery_eq_result_model_multisig (w : Wrap) (a : SolveArgs) (ctx : VM.TxCtx) (m : Nat) (keys : List Bytes)
+    (ph : Bytes) (script : Bytes) (witness : List Bytes) (hph : a.placeholder = some ph)
+    (hm1 : 1 ≤ m) (hmn : m ≤ keys.length) (hn : keys.length ≤ 20) (hkeys : ∀ k ∈ keys, k.length = 33 ∨ k.length = 65)
+    (hk : LookupKnows a.p2sh w (multisigScriptN m keys)) (hsz : WrapSizes w (multisigScriptN m keys)) :
+    (Solve.solve a ctx (w.spk (multisigScriptN m keys)) script witness).map dropNone =
+      Sign.solve a (w.spk (multisigScriptN m keys)) script witness := by
+  have hkeys' : ∀ k ∈ keys, 1 ≤ k.length ∧ k.length ≤ 75 := fun k hk' => by rcases hkeys k hk' with e | e <;> omega
+  obtain ⟨b, tl, hc, hb9, hb0, _, _⟩ := countPush_head m (by omega)
+  exact C05_solve_machinery_eq_result_model_partial w a ctx _ _ (baseOK_multisig a ph hph m keys hm1 hmn hn hkeys') script witness
+    hk hsz (scriptHash_multisig m keys (by omega)) (version_multisig m keys hm1 (by omega) (by omega) hkeys')
+    ⟨b, tl ++ (pushesOf keys ++ (countPush keys.length ++ [0xae])), by simp [multisigScriptN, hc], hb9, hb0⟩
+    (classify_multisig m keys hm1 hmn hn hkeys)
+
+/-- **P2PK: the machinery agrees with `Sign.solve`** -/
+theorem C05_solve_machinery_eq_result_model_p2pk (a : SolveArgs) (ctx : VM.TxCtx) (key ph : Bytes) (script : Bytes)
+    (witness : List Bytes) (hph : a.placeholder = some ph) (hk : key.length = 33 ∨ key.length = 65) :
+    (Solve.solve a ctx (p2pkScript key) script witness).map dropNone = Sign.solve a (p2pkScript key) script witness := by
+  have hb : (UInt8.ofNat key.length).toNat = key.length := by rw [UInt8.toNat_ofNat']; omega
+  have h9 : UInt8.ofNat key.length ≠ 0xa9 := by
+    intro h; have := congrArg UInt8.toNat h; rw [hb] at this
+    have e : (0xa9 : UInt8).toNat = 169 := by decide
+    omega
+  have h0 : UInt8.ofNat key.length ≠ 0 := by
+    intro h; have := congrArg UInt8.toNat h; rw [hb] at this
+    have e : (0 : UInt8).toNat = 0 := by decide
+    omega
+  exact C05_solve_machinery_eq_result_model_partial .bare a ctx _ _ (baseOK_p2pk a ph hph key (by omega) (by omega)) script witness
+    trivial ⟨(fun h => by cases h), (fun h => by simp [Wrap.witness] at h), (fun h => by cases h)⟩
+    (scriptHash_p2pk key (by omega)) (version_p2pk key (by omega) (by omega))
+    ⟨UInt8.ofNat key.length, key ++ [0xac], by simp [p2pkScript, directPush], h9, h0⟩ (classify_p2pk key hk)
 
 /-- **P2WPKH and P2SH-P2WPKH: the machinery agrees with `Sign.solve`** -/
 theorem C05_solve_machinery_eq_result_model_p2wpkh (a : SolveArgs) (ctx : VM.TxCtx) (prog ph : Bytes) (script : Bytes)
